@@ -553,6 +553,13 @@ def h_iter_map(I, st, fr, e, c, a):
     return [(s2, VSeq(lift_map(I, s2, seq.t, r)), None)]
 
 
+def _no_effects(I, f, who):
+    """The element-wise adaptors are modelled for pure closures only; a closure that writes captured state would need a
+    loop summary (not silently ignored)."""
+    if closure_has_effects(I, f):
+        raise NotImplementedError(who + ": closure with side effects")
+
+
 def closure_has_effects(I, f):
     if not isinstance(f, VClosure):
         return False
@@ -647,6 +654,7 @@ def h_iter_fold(I, st, fr, e, c, a):
 
 
 def h_iter_any(I, st, fr, e, c, a):
+    _no_effects(I, a[1], "h_iter_any")
     seq = as_list(I, st, fr, e, a[0])
     if seq.t == EMPTY:
         return [(st, FALSE, None)]
@@ -911,6 +919,7 @@ def h_for_each(I, st, fr, e, c, a):
 
 
 def h_filter_map(I, st, fr, e, c, a):
+    _no_effects(I, a[1], "h_filter_map")
     seq = as_list(I, st, fr, e, a[0])
     return [(st, VSeq(filter_map_term(I, st, fr, e, seq, a[1])), None)]
 
@@ -985,6 +994,7 @@ def _rename_term(t, M):
 def h_filter(I, st, fr, e, c, a):
     """iter.filter(pred): the sub-list at the positions where pred holds.  The mask term records the list and the
     predicate as a formula over the list's arbitrary element."""
+    _no_effects(I, a[1], "h_filter")
     seq = as_list(I, st, fr, e, a[0])
     if seq.t == EMPTY:
         return [(st, seq, None)]
@@ -1078,6 +1088,7 @@ def h_iter_max(I, st, fr, e, c, a):
 
 def h_sort_by_key(I, st, fr, e, c, a):
     """list.sort_by_key(key): the list re-indexed along the (stable) sorting permutation of its keys."""
+    _no_effects(I, a[1], "h_sort_by_key")
     place, cur = place_of(I, st, a[0])
     if cur.t == EMPTY:
         return [(st, UNIT, None)]
@@ -1099,6 +1110,7 @@ def h_clone_from_slice(I, st, fr, e, c, a):
 
 
 def h_flat_map(I, st, fr, e, c, a):
+    _no_effects(I, a[1], "h_flat_map")
     seq = as_list(I, st, fr, e, a[0])
     f = a[1]
     if seq.t == EMPTY:
@@ -1139,13 +1151,47 @@ def _quantifier(I, st, fr, e, seq, f, stop_on):
     return out
 
 
+def _predicate_literal(I, st, fr, e, seq, f):
+    """True / False when the (pure) predicate evaluates to that literal on the arbitrary element of the list, else None."""
+    n_ob = len(I.obligations)
+    try:
+        s = st.copy()
+        elem = seq_elem(I, s, seq, None)
+        outs = I.apply_value(f, [elem], s, fr, e)
+    except Exception:
+        del I.obligations[n_ob:]
+        return None
+    del I.obligations[n_ob:]
+    vals = set()
+    for (s2, r, cc) in outs:
+        if cc is not None or not isinstance(r, VBool):
+            return None
+        if r.f == ("true",):
+            vals.add(True)
+        elif r.f == ("false",):
+            vals.add(False)
+        else:
+            return None
+    return vals.pop() if len(vals) == 1 else None
+
+
 def h_all(I, st, fr, e, c, a):
+    _no_effects(I, a[1], "h_all")
     seq = as_list(I, st, fr, e, a[0])
     if seq.t == EMPTY:
         return [(st, TRUE, None)]
     r = _quantifier(I, st, fr, e, seq, a[1], False)
     if r is not None:
         return r
+    # the predicate on the arbitrary element: when it is decided there (the same for every element), so is the quantifier
+    lit = _predicate_literal(I, st, fr, e, seq, a[1])
+    if lit is not None:
+        out = []
+        for s1 in I.assume(st.copy(), ("cmp", "eq", t_len(seq.t))):
+            out.append((s1, TRUE, None))
+        for s1 in I.assume(st.copy(), ("cmp", "ge", t_len(seq.t) - 1)):
+            out.append((s1, TRUE if lit else FALSE, None))
+        return out
     return [(st, VBool(("unk", ("all", show_term(seq.t)[:80], fkey_of(a[1])))), None)]
 
 
@@ -1199,7 +1245,27 @@ def h_index_mut(I, st, fr, e, c, a):
         if isinstance(cur, VSeq):
             I.pre_ge(st, fr, e, "index_mut", t_len(cur.t), ix.p + 1, f"{show_poly(ix.p)} < len({show_term(cur.t)})")
         return [(st, VMutRef((place[0], place[1] + (("idx", ix.p),))), None)]
+    if isinstance(recv, VMutRef) and isinstance(ix, (VRange, VRec)):
+        import prims
+        place, cur = place_of(I, st, recv)
+        if isinstance(cur, VSeq):
+            lo, hi = prims._range(I, st, cur.t, ix)
+            I.pre_ge(st, fr, e, "slice", hi, lo, f"{show_poly(lo)} <= {show_poly(hi)}")
+            I.pre_ge(st, fr, e, "slice", t_len(cur.t), hi, f"{show_poly(hi)} <= len({show_term(cur.t)})")
+            return [(st, VMutRef((place[0], place[1] + (("range", lo, hi),))), None)]
     raise NotImplementedError("index_mut")
+
+
+def h_clone_from_slice2(I, st, fr, e, c, a):
+    """dst.clone_from_slice(src) / copy_from_slice: dst (a place, possibly a sub-range) := src; lengths must agree."""
+    dst, src = a[0], deref(I, st, a[1])
+    if not isinstance(dst, VMutRef) or not isinstance(src, VSeq):
+        raise NotImplementedError("clone_from_slice")
+    cur = I.read_place(st, dst.place)
+    if isinstance(cur, VSeq):
+        I.pre_eq(st, fr, e, "clone_from_slice", t_len(cur.t), t_len(src.t))
+    I.write_place(st, dst.place, src)
+    return [(st, UNIT, None)]
 
 
 def h_first_arg(I, st, fr, e, c, a):
@@ -1290,6 +1356,8 @@ TABLE = {
     "std::mem::replace": h_mem_replace,
     "std::mem::swap": h_mem_swap,
     "std::vec::Vec::<T, A>::clear": h_clear,
+    "core::slice::<impl [T]>::clone_from_slice": h_clone_from_slice2,
+    "core::slice::<impl [T]>::copy_from_slice": h_clone_from_slice2,
     "core::slice::<impl [T]>::last": h_last,
     "std::ops::Index::index": h_index,
     "std::ops::IndexMut::index_mut": h_index_mut,
